@@ -218,18 +218,20 @@ func init() {
 			{Name: "rt", Pkg: "c12", Run: "^(TestC12Messages|TestC12Envelopes|TestC12Primitives)$", QuickChecks: 15000, ThoroughChecks: 400000, ThoroughShards: 16, Inject: msgOverlay},
 		},
 	}
+	c13Overlay := append(append([]Inject{}, msgOverlay...), Inject{RepoRel: "internal/remoting/zz_verif_export.go", Src: "overlay/remoting_export.go.txt"})
 	registry["C13"] = &Check{
 		Level: "fault_enumeration",
-		Rule:  "decoders: for each sampled valid encoding (message and envelope encoding of a generated value of a registered type) EVERY truncation and EVERY single-byte replacement by {0x00,0x01,0x7f,0x80,0xff,+1,-1,space,tab,newline,'/',':','%','@'} (positions strided above 600 bytes) plus length fields overwritten with hostile constants, splices and random bytes are fed to DecodeEnvelopWithRemoting (also followed by the reference rebuilding of HandleRemotingEnvelop), Reader.ReadMessage, ReadVersionVector and (sampled) Handshake.Wait, with and without a Codec; every registered reader on crafted bodies; typed Reader.Read into destination types drawn from a grammar (incl. unsupported kinds) with a sentinel-filled destination. Encoders: values of types from a grammar that includes int, uint, uintptr, complex, map, chan, func, named scalars, nil interfaces, nil pointers at every depth; nil, non-pointer, typed-nil and nil-field messages with and without a Codec. Oracle: value or error - no panic, no worker death, allocation <= 64 x input + 16 MiB, destination unchanged on error. Non-trivial = every mutation case; typed reads / reader bodies with >= 4/8 input bytes. Distinct = hash of the case description.",
+		Rule:  "decoders: for each sampled valid encoding (message and envelope encoding of a generated value of a registered type) EVERY truncation and EVERY single-byte replacement by {0x00,0x01,0x7f,0x80,0xff,+1,-1,space,tab,newline,'/',':','%','@'} (positions strided above 600 bytes) plus length fields overwritten with hostile constants, splices and random bytes are fed to DecodeEnvelopWithRemoting (also followed by the reference rebuilding of HandleRemotingEnvelop), Reader.ReadMessage, ReadVersionVector and (sampled) Handshake.Wait, with and without a Codec; every registered reader on crafted bodies; typed Reader.Read into destination types drawn from a grammar (incl. unsupported kinds) with a sentinel-filled destination. Encoders: values of types from a grammar that includes int, uint, uintptr, complex, map, chan, func, named scalars, nil interfaces, nil pointers at every depth; nil, non-pointer, typed-nil and nil-field messages with and without a Codec. Oracle: value or error - no panic, no worker death, allocation <= 64 x input + 16 MiB, destination unchanged on error. Non-trivial = every mutation case; typed reads / reader bodies with >= 4/8 input bytes. Distinct = hash of the case description. Frame level: the connection actor's own frame reader (overlay accessor to onReadConn, a pipe as the connection) is fed streams of 1-4 frames whose length fields are the exact length, every hostile 32-bit constant, off-by-one values and the neighbourhood of the 4 MiB limit, with valid, truncated or random bodies; oracle: no panic, memory bounded by the frame limit per frame, valid frames in front of the first hostile one reach the envelope handler.",
 		Assumptions: []string{
 			"allocation is measured with runtime/metrics /gc/heap/allocs:bytes around each decode (large allocations are accounted immediately)",
 			"destination types with zero wire size per element ([]struct{}) are not generated: a transmitted count then drives a loop that consumes no input; no message of the library has such a field",
 			"a worker killed by a fatal runtime error (stack overflow, out of memory) is a verdict of the clause no-crash; the case persisted before execution (test name + rapid seed) is the replay",
 		},
 		Units: []Unit{
-			{Name: "enc", Pkg: "c13", Run: "^(TestC13EncodeValues|TestC13EncodeMessages)$", QuickChecks: 20000, ThoroughChecks: 300000, ThoroughShards: 4, Inject: msgOverlay, CaseFile: true, CrashOracle: "no-crash"},
-			{Name: "dec", Pkg: "c13", Run: "^(TestC13RegisteredReaders|TestC13TypedRead)$", QuickChecks: 30000, ThoroughChecks: 400000, ThoroughShards: 4, Inject: msgOverlay, CaseFile: true, CrashOracle: "no-crash"},
-			{Name: "mut", Pkg: "c13", Run: "^TestC13DecodeMutations$", QuickChecks: 150, QuickShards: 4, ThoroughChecks: 2500, ThoroughShards: 8, Inject: msgOverlay, CaseFile: true, CrashOracle: "no-crash"},
+			{Name: "enc", Pkg: "c13", Run: "^(TestC13EncodeValues|TestC13EncodeMessages)$", QuickChecks: 20000, ThoroughChecks: 300000, ThoroughShards: 4, Inject: c13Overlay, CaseFile: true, CrashOracle: "no-crash"},
+			{Name: "dec", Pkg: "c13", Run: "^(TestC13RegisteredReaders|TestC13TypedRead)$", QuickChecks: 30000, ThoroughChecks: 400000, ThoroughShards: 4, Inject: c13Overlay, CaseFile: true, CrashOracle: "no-crash"},
+			{Name: "frame", Pkg: "c13", Run: "^TestC13Frames$", QuickChecks: 3000, ThoroughChecks: 100000, ThoroughShards: 4, Inject: c13Overlay, CaseFile: true, CrashOracle: "no-crash"},
+			{Name: "mut", Pkg: "c13", Run: "^TestC13DecodeMutations$", QuickChecks: 150, QuickShards: 4, ThoroughChecks: 2500, ThoroughShards: 8, Inject: c13Overlay, CaseFile: true, CrashOracle: "no-crash"},
 		},
 	}
 
